@@ -137,6 +137,38 @@ def build_device(fcp_text, msgs, workdir):
     return exe, None
 
 
+def translated_devices_are_the_model(chk, devs):
+    """For every built device: translate the generated scheduler and let Coq check gen_step = shape_step periods by conversion.
+    Returns None, or a description of the first device for which that fails."""
+    import c2coq
+    from concurrent.futures import ThreadPoolExecutor
+    jobs = []
+    for k, ((msgs, text, wd), _) in enumerate(devs):
+        names = [m["name"].lower() for m in msgs]
+        ps = "; ".join(f"({m['period']})" for m in msgs)
+        try:
+            n, defn = c2coq.translate_scheduler(os.path.join(wd, "ecu_can.c"), [wd], names, "gen_step")
+        except c2coq.Untranslatable as e:
+            return f"untranslatable ({e}) for\n{text}"
+        if n != len(msgs):
+            return f"last_send_t has {n} slots for {len(msgs)} messages in\n{text}"
+        src = ("From Coq Require Import ZArith List Bool.\nFrom FcpV Require Import Sched.Sched Sched.SchedGenLib.\nImport ListNotations.\nOpen Scope Z_scope.\n"
+               + defn + f"Lemma generated_is_shape : forall s time, gen_step s time = shape_step [{ps}] s time.\nProof. intros. reflexivity. Qed.\n")
+        path = os.path.join(wd, "SchedGenDev.v")
+        with open(path, "w") as f:
+            f.write(src)
+        jobs.append((path, text))
+
+    def check(job):
+        r = subprocess.run(["coqc", "-Q", common.COQ, "FcpV", job[0]], capture_output=True, text=True, timeout=300)
+        return None if r.returncode == 0 else f"{(r.stdout + r.stderr)[-300:]} for\n{job[1]}"
+    with ThreadPoolExecutor(max_workers=8) as ex:
+        res = list(ex.map(check, jobs))
+    chk.coverage["generated_schedulers_translated_and_checked"] = sum(1 for r in res if r is None)
+    bad = [r for r in res if r is not None]
+    return bad[0] if bad else None
+
+
 def frame_z(fid, dlc, data):
     return fid + (dlc << 11) + (data << 15)
 
@@ -174,7 +206,7 @@ def case_term(ps, hist, calls):
 def run(chk):
     quick = chk.tier == "quick"
     ndev, nhist, hlen, maxp = (40, 40, 14, 60) if quick else (400, 120, 24, 2000)
-    broken = chk.proof_obligations()
+    broken = chk.proof_obligations(["Corr/C19.vo", "Sched/SchedGenProofs.vo"])
     chk.coverage["rule"] = (
         "devices: 1-4 CAN messages (u8/u16/u32 fields), periods -1, 1 or 1..N, generated C compiled with gcc; "
         "histories: true times with deltas {0,1,P-1,P,P+1,2P,random,near-wrap}, first call possibly close to 2^32; "
@@ -195,6 +227,11 @@ def run(chk):
         # generation uses the in-process real generator (not thread-safe for jinja caches: do it serially), compile in parallel
         built = [build(dev) for dev in devices]
         chk.coverage["programs"] = sum(1 for b in built if b[0])
+        # the generated C itself: clang's AST of can_send_ecu_msgs_scheduled is translated to Gallina (harness/c2coq.py) and Coq checks
+        # that it is the statement sequence proved equal to the model (Sched/SchedGenProofs.v: shape_is_model)
+        untied = translated_devices_are_the_model(chk, [(d, b) for d, b in zip(devices, built) if b[0]])
+        if untied and broken is None:
+            broken = "generated scheduler is not the modelled statement sequence: " + untied
         cases, meta = [], []
         for (msgs, text, wd), (exe, err) in zip(devices, built):
             if exe is None:
@@ -252,6 +289,7 @@ def run(chk):
             if not found:
                 chk.violation({"kind": "proof-obligation", "broken": broken, "theorem": "Props/C19.v"}, no_failing_input=True)
         chk.assumptions += [
+            "harness/c2coq.py (clang's AST of the generated scheduler -> Gallina, C integer semantics made explicit from clang's types) is trusted; per generated device Coq checks by conversion that the translation is the statement sequence proved equal to the model (shape_is_model)",
             "gcc -O1 -fno-strict-aliasing and the C abstract machine (uint32_t wrap, int->unsigned conversion) as modelled in Sched.v",
             "can_encode_msg_i is observed (E lines), not modelled here; the model checks that the frame sent is the one of the current device value",
             "histories satisfy the gap hypothesis of sched_refines_ideal (gaps < 2^32 - max period)",
